@@ -337,6 +337,8 @@ def rule_d(ctx, send, recv, body, new):
 
 
 def run(ctx):
+    from .. import fixtures
+    ctx.guarded("C07.FX", lambda c: fixtures.run(c, ['escapes', 'orderings']))
     r = ctx.guarded("C07.a", rule_a)
     if r:
         words, cells, s, rr, send, recv, body, new = r
